@@ -213,11 +213,18 @@ func (ec *EvalCtx) havocTarget(tgt string) {
 				}
 			}
 			st.nonnil["pendinghavocprefix:"+d.key] = true
+			delete(st.nonnil, "pendingloopprefix:"+d.key)
+			for k := range st.nonnil {
+				if strings.HasPrefix(k, "seen:"+d.key) {
+					delete(st.nonnil, k)
+				}
+			}
 		case d.base == nil:
 			if _, ok := vc.keySort[d.key]; ok {
 				st.havocKey(d.key)
 			} else {
 				st.nonnil["pendinghavoc:"+d.key] = true
+				delete(st.nonnil, "pendingloophavoc:"+d.key)
 			}
 		default:
 			arr := st.get(d.key)
